@@ -181,7 +181,8 @@ pub fn random_cfg(rng: &mut Sm, i: usize) -> AgentCfg {
         market,
         asset,
         ticks,
-        n_agents: if rng.chance(0.03) { rng.range(65, 300) as u16 } else { rng.range(1, 40) as u16 },
+        // populations: usually 1..40, a few crowds, and one configuration in fifty with no trader at all (must stay silent)
+        n_agents: if rng.chance(0.03) { rng.range(65, 300) as u16 } else if rng.chance(0.02) { 0 } else { rng.range(1, 40) as u16 },
         id_start: rng.below(1000) as u32,
         tick_range: if top_ticks { (top_hi - rng.range(2, 60) as u32, top_hi) } else { (lo, lo + rng.range(1, 60) as u32) },
         vol_range: {
